@@ -101,6 +101,15 @@ def cptvTempExt : String := "cptv.temp"
 /-- deleteTempFiles: the glob pattern expression -/
 def cleanupGlobExpr : String := "\"*.\" + cptvTempExt + \"*\""
 
+/-- deleteExcessRecordings: the glob pattern -/
+def excessGlobExpr : String := "\"*.cptv*\""
+
+/-- deleteExcessRecordings: the condition under which nothing (more) is deleted -/
+def excessStopTest : String := "percentageLeft > 30"
+
+/-- deleteExcessRecordings: the file removed in one pass of the loop -/
+def excessVictimExpr : String := "matches[0]"
+
 /-- newRecordingTempName: time layout expression -/
 def tempNameLayoutExpr : String := "\"20060102.150405.000.\" + cptvTempExt"
 
